@@ -15,7 +15,7 @@ from harness.session import Session
 PROP = "C12"
 LEVEL = "exploration"
 RULE = ("constant-speed shapes (arc, arc_radius, circle, constant-radius helix/thread) with R >= 5*res "
-        "and L >= 10*res, L/res log-uniform over 10..1e4 (quick) / 1e5 (thorough), in mm and inches; "
+        "and L >= 10*res, L/res log-uniform over 10..1e4 (quick) / 3e4 (thorough), in mm and inches; "
         "every shape (incl. spline/spiral/varying helix) is traced at res and res/2; unit switches "
         "rescale the resolution; distinct = (shape, floor(log10(L/res)), units, distance mode)")
 ASSUMPTIONS = [
@@ -26,12 +26,12 @@ ASSUMPTIONS = [
 ]
 TIERS = {
     "quick": {"shards": 16, "cases": 320, "max_ratio": 4e3, "timeout": 400},
-    "thorough": {"shards": 16, "cases": 4800, "max_ratio": 1e5, "timeout": 3400},
+    "thorough": {"shards": 16, "cases": 1600, "max_ratio": 3e4, "timeout": 3400},
 }
 FLOORS = {
     "quick": {"counts": {"segments_measured": 100000, "constant_speed_shapes": 150,
                          "halving_comparisons": 250, "unit_switch_checks": 300}, "keys": 40},
-    "thorough": {"counts": {"segments_measured": 5000000, "constant_speed_shapes": 2500}, "keys": 60},
+    "thorough": {"counts": {"segments_measured": 3000000, "constant_speed_shapes": 800}, "keys": 60},
 }
 MM_PER_IN = 25.4
 
